@@ -1,4 +1,5 @@
 #!/bin/bash
+VERIF_HOME=${VERIF_HOME:-$(cd "$(dirname "$0")/.." && pwd)}
 # tools/benign_try.sh <patch file> <tag> <tier> <check ids...> : run checks against a property-PRESERVING change on a
 # scratch worktree; every exit other than 0 is a false alarm (or an inconclusive run) to be looked at.
 patch=$1; tag=$2; tier=$3; shift 3
@@ -6,7 +7,7 @@ wt=/tmp/wt/ben-$tag; rm -rf /tmp/wt/rp-ben-$tag
 git -C /repo worktree remove --force $wt >/dev/null 2>&1
 git -C /repo worktree add -q $wt HEAD && git -C $wt apply $patch || exit 2
 for c in "$@"; do
-  VERIF_REPO=$wt VERIF_EVIDENCE_DIR=/tmp/wt/ev-ben-$tag VERIF_REPLAY_DIR=/tmp/wt/rp-ben-$tag timeout 3000 /verif/check $c $tier > /tmp/wt/ben-$tag-$c.out 2>&1
+  VERIF_REPO=$wt VERIF_EVIDENCE_DIR=/tmp/wt/ev-ben-$tag VERIF_REPLAY_DIR=/tmp/wt/rp-ben-$tag timeout 3000 $VERIF_HOME/check $c $tier > /tmp/wt/ben-$tag-$c.out 2>&1
   rc=$?
   echo "== $tag vs $c $tier: exit=$rc $( [ $rc = 0 ] && echo silent || echo ALARM )"
   grep -E "^  \[|^HARNESS" /tmp/wt/ben-$tag-$c.out | sed 's/\] .*/]/' | sort | uniq -c | sort -rn | head -6
